@@ -109,7 +109,7 @@ def schema_bij(ctx: Ctx, chk) -> None:
             chk.ok(rule, f"{cfq}::unsaved-attributes", "only the transient reboot flag is not persisted", init.where, sample=False)
         # post_load
         chk.instance(rule)
-        hooks = [f for fl in s.methods.values() for f in fl if any(d.split("(")[0].split(".")[-1] == "post_load" for d in f.decorator_names)]
+        hooks = [f for fl in s.mro_methods().values() for f in fl if any(d.split("(")[0].split(".")[-1] == "post_load" for d in f.decorator_names)]
         ok = False
         if len(hooks) == 1:
             rets = [n for n in ctx.own_nodes(hooks[0]) if isinstance(n, ast.Return)]
@@ -134,13 +134,13 @@ def schema_bij(ctx: Ctx, chk) -> None:
     ok = False
     if len(st) == 1 and len(loops) == 1:
         v0 = cs.tree(st[0].value)  # a local holding the dumped record is written out
-        ok = norm(loops[0].iter) == "self.nodes.values()" and isinstance(loops[0].target, ast.Name) and norm(st[0].targets[0].slice) == f"{loops[0].target.id}.node_id" and isinstance(v0, ast.Call) and norm(v0.func).endswith(".dump") and len(v0.args) == 1 and norm(v0.args[0]) == loops[0].target.id
+        ok = cs.canon(loops[0].iter) == "self.nodes.values()" and isinstance(loops[0].target, ast.Name) and norm(st[0].targets[0].slice) == f"{loops[0].target.id}.node_id" and isinstance(v0, ast.Call) and norm(v0.func).endswith(".dump") and len(v0.args) == 1 and norm(v0.args[0]) == loops[0].target.id
         records_name = norm(st[0].targets[0].value)
         where = st[0]
     elif len(comps) == 1 and not st:
         c = comps[0]
         g0 = c.generators[0] if len(c.generators) == 1 else None
-        ok = g0 is not None and not g0.ifs and norm(g0.iter) == "self.nodes.values()" and isinstance(g0.target, ast.Name) and norm(c.key) == f"{g0.target.id}.node_id" and isinstance(c.value, ast.Call) and norm(c.value.func).endswith(".dump") and norm(c.value.args[0]) == g0.target.id
+        ok = g0 is not None and not g0.ifs and cs.canon(g0.iter) == "self.nodes.values()" and isinstance(g0.target, ast.Name) and norm(c.key) == f"{g0.target.id}.node_id" and isinstance(c.value, ast.Call) and norm(c.value.func).endswith(".dump") and norm(c.value.args[0]) == g0.target.id
         par = ctx.prog.parents.get(c)
         records_name = norm(par.targets[0]) if isinstance(par, ast.Assign) else None
         where = c
@@ -166,7 +166,8 @@ def schema_bij(ctx: Ctx, chk) -> None:
     else:
         chk.refute(rule, f"{save.fq}::write", "save does not write json.dumps(<all records>)", save.where)
     chk.instance(rule)
-    stl = [n for n in ctx.own_nodes(load) if isinstance(n, ast.Assign) and isinstance(n.targets[0], ast.Subscript) and norm(n.targets[0].value) == "self.nodes"]
+    cl = Canon(ctx.I, load)
+    stl = [n for n in ctx.own_nodes(load) if isinstance(n, ast.Assign) and isinstance(n.targets[0], ast.Subscript) and cl.canon(n.targets[0].value) == "self.nodes"]
     okl = len(stl) == 1 and isinstance(stl[0].value, ast.Name) and norm(stl[0].targets[0].slice) == f"{stl[0].value.id}.node_id"
     if okl:
         chk.ok(rule, f"{load.fq}::records", "self.nodes[node.node_id] = node", ctx.loc(load, stl[0]))
@@ -475,7 +476,7 @@ def legacy1(ctx: Ctx, chk) -> None:
     }
     for sfq, (keys, extra, spec) in want.items():
         s = ctx.cls(sfq)
-        hooks = [f for fl in s.methods.values() for f in fl if any(d.split("(")[0].split(".")[-1] == "pre_load" for d in f.decorator_names)]
+        hooks = [f for fl in s.mro_methods().values() for f in fl if any(d.split("(")[0].split(".")[-1] == "pre_load" for d in f.decorator_names)]
         if len(hooks) != 1:
             raise AnalysisError(f"LEGACY-1: expected one pre_load hook on {s.name}")
         f = ctx.inl(hooks[0])
